@@ -1,7 +1,8 @@
 """C19 — approximate entropy (cellpylib/apen.py): correspondence generators and runners.
 
 A case is one call apen(sequence, m, r) with the sequence given in one `form`:
-  'str' | 'list' | 'array:<dtype>' (int64, int32, uint8, int8) | 'tuple' | 'range' | 'bytes' (unsupported).
+  'str' | 'list' | 'array:<dtype>' | 'nplist:<item type>' (a Python list of NumPy scalars) | 'view:<kind>:<dtype>'
+  (a non-contiguous ndarray view) | one of UNSUPPORTED (tuple, range, bytes, deque, ...).
 Observation: the exception class, or the returned double transported exactly (float.hex(), decoded to
 mantissa * 2^exponent), the double returned for the list form of the same integers (reference for the
 "forms agree" oracle) and, when np.log's arguments could be observed, the numerators of C for m+1 and m.
@@ -23,14 +24,20 @@ NOTES = ['all ternary sequences of length 2..4 (quick) / 2..6 (thorough) are enu
          'list/extremes: values around +-2^63, 2^64, 10^30 with mixed signs in list, object/int64/uint64 array form, '
          'r in {0, 1, 2, 2^62}; real_r: float tolerances 0.5, 0.999, 1.5, 2.0, 2.5 (model side floor r); long/*: N = 300, '
          '600, 1200 with 2 or 4 states, m = 1, r = 0 (quick: 3 cases, thorough: 8)',
+         'round 5: form/list_of_np/* (lists of np.int64/int32/int16/int8 items, mixed with Python ints, list(arr), '
+         'Python and NumPy bools, unsigned items with every r (regression test of fix 7e39c45); str / None items are rejected), form/view/* (column, every second '
+         'element, reversed, inner slice of a 2-D row, row of a Fortran-ordered array; four dtypes), arrays of dtype bool '
+         'and float64 with integral values, eight more unsupported types',
          'exact layer: the numerators of C are recovered from the argument of np.log (patched during the call) and '
          'compared exactly; if the code stops calling np.log twice with fractions k/n this part is skipped, the double '
          'still is compared']
 ASSUMPTIONS = ['integer sequences of any magnitude (sampled up to 10^30), m in 1..4 (thorough: 1..6), r >= 0 integer or float '
                '(the model receives floor r, justified by C19_real_tolerance_counts), length >= m+1',
-               'a list means a list of Python ints: a list holding NumPy scalars (np.uint8(0), ...) still computes '
-               'abs(ua - va) in that dtype and wraps (checked: apen([np.uint8(z) for z in [0,1,2,0,1,2,1]], 2, 1) = 0.2105, '
-               'as ints 0.3075); outside the property as stated, not generated',
+               'list items: Python ints and bools, and NumPy integer / bool scalars of every width and signedness (converted '
+               'with .item() since fix 7e39c45, so nothing wraps); items without `-` (str, None) raise from inside the distance '
+               'and are compared as "rejected", class unconstrained',
+               'exact subclasses of list / str / ndarray (type(x) is ... in the code) are not exercised: an isinstance '
+               'refactoring would change their fate and the property does not name them',
                'digit strings are ASCII 0..9 (int() also accepts other Unicode digits; not exercised)',
                'the dtype of an array is not part of the model: the model sees the integer content (this is what the '
                'fix 8fd721a established); a wrap-around in a narrow dtype shows as a disagreement',
@@ -39,6 +46,8 @@ TRUSTED = ['Interval library (FloatIntervalFull over StdZRadix2) and Coquelicot 
            'lemmas are used, not re-proved',
            'decoding of float.hex() into mantissa/exponent in harness/props/c19.py']
 
+UNSUPPORTED = ('tuple', 'range', 'bytes', 'deque', 'array.array', 'generator', 'none', 'int', 'dict', 'set', 'bytearray')
+REJECTED_LISTS = ('nplist:stritems', 'nplist:noneitems')   # accepted by the type dispatch, then abs(ua - va) raises (class not constrained)
 DTYPES = ['int64', 'int32', 'uint8', 'int8']
 DT_RANGE = {'int64': (-2 ** 31, 2 ** 31 - 1), 'int32': (-2 ** 31, 2 ** 31 - 1), 'uint8': (0, 255), 'int8': (-128, 127)}
 RS = [0, 1, 2, 5]
@@ -189,12 +198,65 @@ def generate(rng, tier):
     for (N, K, form) in longs:
         zs = [rng.randrange(K) for _ in range(N)]
         yield _mk('long/N=%d' % N, zs, 1, 0, form)
+    # 7g. round 5 (+ fix 7e39c45): a Python list whose items are NumPy scalars (list(arr), [np.int64(v) ...], mixed
+    #     with Python ints). The list branch converts NumPy scalar items with .item(), so every item type computes on
+    #     Python numbers: signed, UNSIGNED (for every r: regression test of 7e39c45 - before it 0 - 1 wrapped to 255),
+    #     np.bool_ and Python bools (0/1). Items without `-` (str, None) are rejected, class not constrained.
+    item_types = ['int64', 'int32', 'int16', 'int8', 'mixed', 'fromarray', 'uint8', 'uint16', 'uint64', 'mixed_u8',
+                  'pybool', 'bool_', 'uint8', 'fromarray_u8']
+    for i in range(840 if thorough else 224):
+        it = item_types[i % len(item_types)]
+        m = rng.randint(1, 3)
+        N = rng.randint(m + 1, 24)
+        r = rng.choice(RS)
+        if it in ('pybool', 'bool_'):
+            zs = [rng.randint(0, 1) for _ in range(N)]
+        elif it in ('uint8', 'uint16', 'uint64', 'mixed_u8', 'fromarray_u8'):
+            zs = [rng.randint(0, rng.choice([2, 3, 9, 200])) for _ in range(N)]
+            r = rng.choice([1, 1, 2, 5, 0])
+        elif it in ('int8', 'int16', 'int32') and i % 4 == 0:
+            zs = [rng.randint(-12, 12) for _ in range(N)]
+        else:
+            zs = [rng.randrange(rng.choice([2, 3, 10])) for _ in range(N)]
+        c = _mk('form/list_of_np/' + it, zs, m, r, 'nplist:' + it)
+        if m == 1 and r == 0 and i % 5 == 0:
+            c['defaults'] = True
+        yield c
+    for i in range(24 if thorough else 8):
+        m = rng.randint(1, 2)
+        zs = [rng.randint(0, 9) for _ in range(rng.randint(m + 1, 12))]
+        it = ['stritems', 'noneitems'][i % 2]
+        yield _mk('form/list_of/' + it, zs, m, rng.choice(RS), 'nplist:' + it)
+    # 7h. round 5: ndarray inputs that are NON-CONTIGUOUS (or offset) views holding the same logical sequence:
+    #     a column of a 2-D array, every second element, a reversed slice, an inner slice of a 2-D row, a row of a
+    #     Fortran-ordered array. The memory next to each element holds other digits.
+    vkinds = ['column', 'stride2', 'reversed', 'sliced_2d_row', 'fortran_row']
+    for i in range(600 if thorough else 150):
+        vk = vkinds[i % len(vkinds)]
+        dt = DTYPES[(i // len(vkinds)) % 4]
+        m = rng.randint(1, 3)
+        N = rng.randint(m + 1, 24)
+        zs = [rng.randrange(rng.choice([2, 3, 10])) for _ in range(N)]
+        yield _mk('form/view/' + vk, zs, m, rng.choice(RS), 'view:%s:%s' % (vk, dt))
+    # 7i. arrays of dtype bool (values 0/1) and float64 with integral values ("a numpy array of whole numbers")
+    for i in range(120 if thorough else 30):
+        m = rng.randint(1, 3)
+        N = rng.randint(m + 1, 24)
+        if i % 2:
+            yield _mk('form/array_bool', [rng.randint(0, 1) for _ in range(N)], m, rng.choice(RS), 'array:bool')
+        else:
+            yield _mk('form/array_float', [rng.randint(-5, 12) for _ in range(N)], m, rng.choice(RS), 'array:float64')
     # 8. unsupported types
     for i in range(60 if thorough else 24):
         m = rng.randint(1, max_m)
         N = rng.randint(m + 1, 20)
         form = ['tuple', 'range', 'bytes'][i % 3]
         zs = list(range(N)) if form == 'range' else [rng.randint(0, 9) for _ in range(N)]
+        yield _mk('unsupported/' + form, zs, m, rng.choice(RS), form)
+    for i in range(48 if thorough else 16):
+        m = rng.randint(1, max_m)
+        form = UNSUPPORTED[3 + i % (len(UNSUPPORTED) - 3)]
+        zs = [rng.randint(0, 9) for _ in range(rng.randint(m + 1, 20))]
         yield _mk('unsupported/' + form, zs, m, rng.choice(RS), form)
     # 9. a string with a non-digit character is rejected (int(x) fails); class not part of the property
     for _ in range(10 if thorough else 4):
@@ -223,6 +285,69 @@ def _build(c, form=None):
         return list(zs)
     if form.startswith('array:'):
         return np.array(zs, dtype=form.split(':')[1])
+    if form.startswith('nplist:'):
+        it = form.split(':')[1]
+        if it == 'mixed':
+            return [np.int64(z) if i % 2 else z for i, z in enumerate(zs)]
+        if it == 'mixed_u8':
+            return [np.uint8(z) if i % 2 else z for i, z in enumerate(zs)]
+        if it == 'fromarray':
+            return list(np.array(zs))
+        if it == 'fromarray_u8':
+            return list(np.array(zs, dtype=np.uint8))
+        if it == 'stritems':
+            return [str(z) for z in zs]
+        if it == 'noneitems':
+            return [None if i == len(zs) // 2 else z for i, z in enumerate(zs)]
+        if it == 'pybool':
+            return [bool(z) for z in zs]
+        return [getattr(np, it)(z) for z in zs]
+    if form.startswith('view:'):
+        _, vk, dt = form.split(':')
+        N = len(zs)
+        junk = lambda i: (zs[i % N] + 1 + i % 7) % 10          # neighbours in memory differ from the logical sequence
+        if vk == 'column':
+            M = np.array([[junk(3 * i + j) for j in range(3)] for i in range(N)], dtype=dt)
+            M[:, 1] = zs
+            v = M[:, 1]
+        elif vk == 'stride2':
+            base = np.array([junk(i) for i in range(2 * N + 8)], dtype=dt)
+            base[0:2 * N:2] = zs
+            v = base[0:2 * N:2]
+        elif vk == 'reversed':
+            base = np.array([junk(i) for i in range(3 * N + 8)], dtype=dt)
+            base[N:2 * N] = zs[::-1]
+            v = base[N:2 * N][::-1]
+        elif vk == 'sliced_2d_row':
+            M = np.array([[junk(i * (N + 4) + j) for j in range(N + 4)] for i in range(3)], dtype=dt)
+            M[1, 2:N + 2] = zs
+            v = M[1, 2:N + 2]
+        elif vk == 'fortran_row':
+            M = np.asfortranarray(np.array([[junk(i * N + j) for j in range(N)] for i in range(3)], dtype=dt))
+            M[1, :] = zs
+            v = M[1, :]
+        else:
+            raise AssertionError(form)
+        assert v.tolist() == list(zs) and type(v) is np.ndarray and v.ndim == 1
+        return v
+    if form == 'deque':
+        import collections
+        return collections.deque(zs)
+    if form == 'array.array':
+        import array
+        return array.array('i', zs)
+    if form == 'generator':
+        return (z for z in zs)
+    if form == 'none':
+        return None
+    if form == 'int':
+        return zs[0]
+    if form == 'dict':
+        return dict(enumerate(zs))
+    if form == 'set':
+        return set(zs)
+    if form == 'bytearray':
+        return bytearray(zs)
     if form == 'tuple':
         return tuple(zs)
     if form == 'range':
@@ -298,7 +423,7 @@ def run_impl(c):
     if r[0] == 'ok':
         if all(a is not None for a in logged):
             obs['counts'] = _counts(logged, len(c['zs']), c['m'])
-        if c['form'] != 'list' and 'bad' not in c:
+        if c['form'] != 'list' and 'bad' not in c and c['form'] not in REJECTED_LISTS:
             with np.errstate(all='ignore'):
                 ref = call_impl(lambda: _dbl(_call(cpl, c, _build(c, 'list'))))
             obs['ref'] = list(ref)
@@ -317,9 +442,14 @@ def to_coq(c, obs):
         inp = '(SeqStr "%s"%%string)' % _string(c)
     elif form == 'list':
         inp = '(SeqList %s)' % clist(c['zs'], cz)
-    elif form.startswith('array:'):
+    elif form.startswith('array:') or form.startswith('view:'):
         inp = '(SeqArray %s)' % clist(c['zs'], cz)
+    elif form in REJECTED_LISTS:
+        inp = 'SeqListNoSub'
+    elif form.startswith('nplist:'):
+        inp = '(SeqList %s)' % clist(c['zs'], cz)
     else:
+        assert form in UNSUPPORTED, form
         inp = 'SeqOther'
     counts = obs['counts']
     cc = copt(counts, lambda p: '(%s, %s)' % (clist(p[0], cnat), clist(p[1], cnat)))
@@ -329,15 +459,17 @@ def to_coq(c, obs):
 def nontrivial(c, obs):
     r = obs['res']
     if r[0] == 'exc':
-        return c['form'] in ('tuple', 'range', 'bytes')
+        return c['form'] in UNSUPPORTED
     return r[1]['finite'] and r[1]['mant'] != 0
 
 
 def oracle(c, obs):
     """The property's own clauses, evaluated on the implementation's answers."""
     r = obs['res']
-    if c['form'] in ('tuple', 'range', 'bytes'):
+    if c['form'] in UNSUPPORTED:
         return None if r == ['exc', 'TypeError'] else 'unsupported sequence type did not raise TypeError'
+    if c['form'] in REJECTED_LISTS:
+        return None if r[0] == 'exc' else 'a list with str / None items was accepted (abs(ua - va) is not defined on them)'
     if 'bad' in c:
         return None if r[0] == 'exc' else 'a string with a non-digit character was accepted'
     if r[0] != 'ok':
@@ -394,7 +526,7 @@ def shrink(c):
         yield dict(c, r=c['r'] // 2)
     elif c['r'] > 0:
         yield dict(c, r=c['r'] - 1)
-    if c['form'] == 'range':
+    if c['form'] in ('range', 'int', 'none'):
         return
     lo = min(zs)
     if c['form'] not in ('bytes',) and any(z != lo for z in zs):
